@@ -277,6 +277,8 @@ def partitions(tier, pid):
     out = []
     if tier == "thorough":
         for sn in SHAPES_T:
+            if sn == "j.[H].[H]>>q" and pid != "C04":
+                continue
             out += _parts_for(sn, range(5))
         out += _parts_for("j>>q", (0, 4), E=("C", "H", "O"), tag="CHO,")
     else:
@@ -284,7 +286,9 @@ def partitions(tier, pid):
             out += _parts_for(sn, (0, 2, 4))
         for sn in SHAPES_Q2:
             out += _parts_for(sn, (0,))
-    if tier != "thorough":
+    if tier != "thorough" and pid == "C04":
+        # balanced-or-not input that carries atomic-hydrogen placeholders (C04 quantifies over all balanced reactions;
+        # C01-C03 over closed-shell molecules without free placeholders)
         out.append(("pipe[j.[H].[H]>>q|m=0,jq=0]", {"shape": ["j.[H].[H]>>q"], "E": ["C", "H"], "K": 2, "fix": {"m1": 0, "jq": 0, "qq": 0}}, "prop"))
     # hydrogen counts up to 4 with carbon fixed: the multiplicity > 1 branches ('.[O]' * n, one template per [O])
     out.append(("pipe[j>>q|H<=4,m=0]", {"shape": ["j>>q"], "E": ["C", "H"], "K": 2, "KH": 4, "fix": {"m1": 0, "jq": 0, "qq": 0, "jC": 1, "qC": 1}}, "prop"))
